@@ -380,6 +380,16 @@ def check (pid : String) (j : Json) : Except String Verdict := do
         if newSid != 3 then r := r.specFail (some s!"C04: after two failures the newest stream is {newSid}")
         let prevB : Obs := { prev with interest := fun t => if t = rt then (prev.interest t).map (fun ws => sortStr (ws ++ [first])) else prev.interest t }
         r := r.specFail (c04reconnect prevB o newSid)
+      if pid = "C03" then
+        -- quiescent after two failures in a row: the last request of every subscribed type on the LIVE (newest) stream is
+        -- the interest set
+        for t in RType.all do
+          match o.interest t with
+          | some ws =>
+            match (o.reqs.filter (fun q => q.sid = newSid && q.rt = t)).getLast? with
+            | some q => if sortStr q.names != sortStr ws then r := r.specFail (some s!"C03.quiescent_last_request: after two stream failures in a row the last {rtStr t} request on the live stream {newSid} lists {q.names}, the interest set is {ws}")
+            | none => r := r.specFail (some s!"C03.quiescent_last_request: after two stream failures in a row the live stream {newSid} never received a {rtStr t} request although {ws} is subscribed (the requests went to a dead stream)")
+          | none => pure ()
     | "parked-ack" =>
       -- the receiver is parked while it hands the acknowledgement to the channel; a lookup of another name misses meanwhile
       let rt ← match rtOfStr (jStrD st "rt" "?") with | some t => pure t | none => throw "parked-ack: type"
